@@ -13,6 +13,8 @@ pub struct Profile {
     pub max_ops: usize,
     /// allow re-splitting stack buffers
     pub resplit: bool,
+    /// never generate a *granted* window that crosses the physical end of the storage
+    pub no_straddle: bool,
 }
 
 const FIFO: &[(&str, u32)] = &[("push", 10), ("pushi", 2), ("pushs", 8), ("pushsi", 2), ("pushsc", 3), ("pushsci", 1), ("nsm", 3), ("nim", 2), ("nimi", 2),
@@ -26,7 +28,7 @@ fn with(base: &[(&'static str, u32)], extra: &[(&'static str, u32)]) -> Vec<(&'s
 }
 
 pub fn profile(name: &str) -> Profile {
-    let p = |name: &'static str, weights: Vec<(&'static str, u32)>, owned: bool, refuse_pct: usize, resplit: bool| Profile { name, weights, owned, refuse_pct, max_ops: 60, resplit };
+    let p = |name: &'static str, weights: Vec<(&'static str, u32)>, owned: bool, refuse_pct: usize, resplit: bool| Profile { name, weights, owned, refuse_pct, max_ops: 60, resplit, no_straddle: false };
     match name {
         "fifo" => p("fifo", FIFO.to_vec(), false, 10, false),
         "avail" => p("avail", with(FIFO, &[("avail", 8)]), false, 40, false),
@@ -40,6 +42,9 @@ pub fn profile(name: &str) -> Profile {
         "async" => p("async", vec![("push", 12), ("pushs", 7), ("pushsc", 3), ("nsm", 2), ("nim", 1), ("nimi", 1), ("adv", 8), ("avail", 3), ("gw", 3), ("se", 4), ("sa", 2), ("sm", 2),
             ("peek", 3), ("peeks", 4), ("peeka", 2), ("pop", 8), ("popm", 1), ("copy", 4), ("clone", 3), ("copys", 5), ("clones", 3), ("reset", 2), ("drop", 1)], false, 35, false),
         "asyncown" => p("asyncown", vec![("push", 14), ("pushsc", 5), ("adv", 6), ("avail", 3), ("gw", 2), ("se", 3), ("peek", 2), ("peeks", 2), ("popm", 9), ("clone", 4), ("clones", 4), ("reset", 1), ("drop", 1)], true, 35, false),
+        "vmem" => { let mut x = p("vmem", with(FIFO, &[("reset", 3), ("detach", 2), ("attach", 2), ("back", 2), ("sync", 1), ("drop", 1)]), false, 15, false); x.no_straddle = true; x }
+        "vmemseam" => p("vmemseam", with(FIFO, &[("pushs", 14), ("copys", 10), ("peeks", 8), ("se", 8)]), false, 5, false),
+        "vmemown" => { let mut x = profile("own"); x.name = "vmemown"; x.no_straddle = true; x }
         "all" => p("all", with(FIFO, &[("reset", 4), ("detach", 3), ("attach", 2), ("seti", 2), ("back", 3), ("sync", 2), ("drop", 1), ("resplit", 10)]), false, 15, true),
         _ => panic!("unknown profile {name}"),
     }
@@ -140,9 +145,23 @@ impl Gen {
             };
             if let Some(op) = op {
                 if let Some(r) = op.role() { if r == Role::W && !o.has_w { continue; } }
+                if pr.no_straddle && straddles(o, &op) { continue; }
                 if o.allowed(&op) { return Some(op); }
             }
         }
         None
     }
+}
+
+/// Would `op` be granted a window that crosses the physical end of the storage?
+pub fn straddles(o: &Oracle, op: &Op) -> bool {
+    use Op::*;
+    let (r, n) = match op {
+        Se(r, n) => (*r, *n), Nsm(n) => (Role::P, *n), PeekS(n) | CopyS(n) | CloneS(n) => (Role::C, *n),
+        PushS(v) | PushSI(v) | PushSC(v) | PushSCI(v) => (Role::P, v.len()),
+        Sa(r) => (*r, o.avail(*r)), PeekA => (Role::C, o.avail(Role::C)),
+        Sm(r, k) if *k > 0 => { let a = o.avail(*r); (*r, a - a % k) }
+        _ => return false,
+    };
+    n <= o.avail(r) && o.idx(r) + n > o.len
 }
